@@ -33,7 +33,7 @@ var tagKeys = []string{"json", "protobuf", "valid", "alipay", "wechat", "gorm", 
 
 var plainVals = []string{"name,omitempty", "required", "required,to=1~3", "to=1~150", "bytes,1,opt,name=name,proto3", "varint,2,opt,name=age,proto3", "-", "id", "phone", "ge=0", "in=(1/2/3)", "either=1", "required|need it,le=3"}
 var zhVals = []string{"required|姓名必填,to=1~3", "to=1~150|年龄1~150", "phone|'手机号码必填,同时正确'", "required|必填", "in=(男/女)|性别"}
-var dollarVals = []string{"re='^a$1b$$c'", "re='^[a-z]+$'", "re='^\\\\d{2}$'|two digits", "${x}", "$1", "a$$b", "$name", "100%", "re='^(a|b)$0'", "c:\\\\dir", "a$b$c", "re='^\\\\w+$',required"}
+var dollarVals = []string{"re='^a$1b$$c'", "re='^[a-z]+$'", "re='^\\\\d{2}$'|two digits", "${x}", "$1", "a$$b", "$name", "100%", "rate in % of total", "%s and %d%%", "%v", "re='^(a|b)$0'", "c:\\\\dir", "a$b$c", "re='^\\\\w+$',required"}
 
 func pickVal(rng *rand.Rand, class string) string {
 	switch {
@@ -150,7 +150,7 @@ func genField(rng *rand.Rand, sb *strings.Builder, class string, s, f int, gener
 	existing := make([]KV, len(existingKeys))
 	have := map[string]bool{}
 	for i, k := range existingKeys {
-		existing[i] = KV{k, pickVal(rng, "")}
+		existing[i] = KV{k, pickVal(rng, class)} // hostile characters also in values the comment does not mention
 		have[k] = true
 	}
 	// spacing between existing keys
